@@ -144,6 +144,67 @@ def dump_cases(logp, comp, prefix, path, limit=None, tag='CASE'):
     return n
 
 
+EDGE_RE = re.compile(r'^<<"EDGE", <<([\d, ]*)>>, (".*")>>$')
+
+
+def dump_tree_cases(logp, comp, prefix, path, per_episode=4000, extra=None, first_op=None):
+    """TLC edge dump in tree form: every dumped line is (path key, last operation); the keys are prefix closed.
+    Sorted, they are a depth-first traversal; the executor walks it with save / restore of the real object,
+    so that every transition of the state graph costs one call on the real code, not a whole path."""
+    tmp = path + '.edges'
+    n = 0
+    with open(logp, errors='replace') as f, open(tmp, 'w') as g:
+        for line in f:
+            m = EDGE_RE.match(line.rstrip('\n'))
+            if not m:
+                continue
+            key = '.'.join('%08d' % int(x) for x in m.group(1).split(',') if x.strip())
+            g.write(key + '\t' + json.loads(m.group(2)) + '\n')
+            n += 1
+    if n == 0:
+        os.remove(tmp)
+        return 0, 0
+    r = sh('LC_ALL=C sort -S 2G -t "\t" -k1,1 %s -o %s' % (tmp, tmp))
+    if r.returncode != 0:
+        raise MachineryError('sort failed: ' + r.stdout)
+    first_op = first_op or {'op': 'new'}
+    neps = 0
+    with open(tmp) as f, open(path, 'w') as out:
+        stack = []          # ops along the current path (as JSON strings, with their save slot)
+        cur = []            # current key
+        ops = None
+        count = 0
+
+        def flush():
+            nonlocal ops, neps
+            if ops:
+                ep = {'id': '%s%d' % (prefix, neps), 'comp': comp}
+                if extra:
+                    ep.update(extra)
+                out.write(json.dumps(ep, separators=(',', ':'))[:-1] + ',"ops":[' + ','.join(ops) + ']}\n')
+                neps += 1
+            ops = None
+
+        for line in f:
+            key_s, op_s = line.rstrip('\n').split('\t', 1)
+            key = key_s.split('.')
+            c = len(key) - 1
+            op_s = op_s[:-1] + ',"save":%d}' % len(key)
+            if ops is None or count >= per_episode:
+                flush()
+                ops = [json.dumps(first_op, separators=(',', ':'))] + stack[:c]
+                count = 0
+            elif c < len(cur):
+                ops.append('{"op":"restore","slot":%d}' % c)
+            ops.append(op_s)
+            count += 1
+            stack = stack[:c] + [op_s]
+            cur = key
+        flush()
+    os.remove(tmp)
+    return n, neps
+
+
 # ---------------------------------------------------------------- executor
 def run_exec(exe, cases, trace, env=None, timeout=3000, wrapper=''):
     e = dict(os.environ)
